@@ -1,2 +1,166 @@
+"""R-ARITH: option-derived arithmetic cannot trap or wrap (C18.a, C06.a).
+
+For the functions that compute with option values (prune limits, pack sizing, chunker parameters) every operation
+that can panic - MIR Assert(Overflow / DivisionByZero / RemainderByZero), calls of the arithmetic operator traits on
+integer references, clamp - whose operands are tainted by an option value must be proved safe by the interval
+analysis (engine/interval.py): operand widths, dominating comparisons, `a >= b` facts, validator summaries (facts
+that hold when a validator such as check_rabin_params returned Ok) and struct-field invariants established by the
+constructor. Untainted operands (repository data sizes, in-memory lengths) are assumed below 2^60 / 2^47.
+"""
+import re
+from rules.common import *
+import interval
+
+# function regex -> description of taint sources (places whose reads are option-derived)
+def _src_limit_option(body, p):
+    return any(isinstance(e, list) and e[0] == "d" and e[1] in ("Percentage",) for e in p[1:])
+
+
+def _src_fields(owner_suffix, names):
+    def f(body, p):
+        for e in p[1:]:
+            if isinstance(e, list) and e[0] == "f" and e[2] in names and (e[4] or "").endswith(owner_suffix):
+                return True
+        return False
+    return f
+
+
+def _src_args(idxs):
+    def f(body, p):
+        return len(p) == 1 and p[0] in idxs
+    return f
+
+
+PACKSIZER_FIELDS = {"default_size", "grow_factor", "size_limit", "min_packsize_tolerate_percent", "max_packsize_tolerate_percent"}
+
+TARGETS = [
+    (r"^rustic_core::commands::prune::PrunePlan::decide_repack$", _src_limit_option, "LimitOption::Percentage payload of max_unused / max_repack"),
+    (r"^rustic_core::blob::packer::PackSizer::pack_size$", _src_fields("packer::PackSizer", PACKSIZER_FIELDS), "PackSizer option fields"),
+    (r"^rustic_core::blob::packer::PackSizer::size_ok$", _src_fields("packer::PackSizer", PACKSIZER_FIELDS), "PackSizer option fields"),
+    (r"^rustic_core::blob::packer::PackSizer::is_too_small$", _src_fields("packer::PackSizer", PACKSIZER_FIELDS), "PackSizer option fields"),
+    (r"^rustic_core::blob::packer::PackSizer::is_too_large$", _src_fields("packer::PackSizer", PACKSIZER_FIELDS), "PackSizer option fields"),
+    (r"^rustic_core::blob::packer::PackSizer::add_size$", _src_fields("packer::PackSizer", PACKSIZER_FIELDS), "PackSizer option fields"),
+    (r"^rustic_core::chunker::rabin::check_rabin_params$", _src_args({1, 2, 3}), "chunk_size, chunk_min_size, chunk_max_size"),
+    (r"^rustic_core::chunker::rabin::ChunkIter::<R>::new$", _src_args({2, 3, 4}), "chunk_size, chunk_min_size, chunk_max_size"),
+    (r"^<rustic_core::chunker::rabin::ChunkIter<R> as std::iter::Iterator>::next$", _src_fields("rabin::ChunkIter", {"min_size", "max_size", "split_mask"}), "validated chunker parameters stored in the iterator"),
+    (r"^<rustic_core::chunker::fixed_size::ChunkIter<R> as std::iter::Iterator>::next$", _src_fields("fixed_size::ChunkIter", {"size"}), "chunk size stored in the iterator"),
+]
+
+# internal (non-option) invariants the analysis cannot derive; stated, not proved
+LEMMAS = {
+    # key part -> (description)
+}
+
+
+def analyse_all(ctx):
+    prog = ctx.prog
+    # validator summaries
+    validators = {}
+    V = prog.find1(r"^rustic_core::chunker::rabin::check_rabin_params$")
+    vs = interval.validator_summary(prog, V)
+    if vs:
+        validators[V.path] = interval.apply_summary(vs)
+    # field invariants of the rabin ChunkIter from its constructor
+    N = prog.find1(r"^rustic_core::chunker::rabin::ChunkIter::<R>::new$")
+    field_inv = {}
+    an = interval.Analysis(prog, N, sources=_src_args({2, 3, 4}), validators=validators)
+
+    def hook(a, st, place, rv, bb):
+        if rv[0] == "agg" and rv[1][0] == "adt" and rv[1][1].endswith("rabin::ChunkIter"):
+            for fname, op in zip(rv[1][3], rv[2]):
+                iv, k, t = a.read(st, op)
+                if iv is not None and fname in ("min_size", "max_size", "split_mask"):
+                    old = field_inv.get(("ChunkIter", fname))
+                    field_inv[("ChunkIter", fname)] = iv if old is None else (min(old[0], iv[0]), max(old[1], iv[1]))
+    an.on_assign = hook
+    an.run()
+    # length invariant of the carry buffer: created with a constant length and only ever shrunk
+    blen = buffer_len_invariant(prog, N)
+    if blen is not None:
+        field_inv[("ChunkIter.len", "buf")] = (0, blen)
+    results = []
+    for rx, src, desc in TARGETS:
+        b = prog.find1(rx)
+        a = interval.Analysis(prog, b, sources=src, validators=validators, field_inv=field_inv if "rabin::ChunkIter" in b.path else {})
+        a.run()
+        results.append((b, a, desc))
+    return results, vs, field_inv
+
+
+GROW = re.compile(r"Vec::<T, A>::(push|extend_from_slice|resize|resize_with|insert|append|extend|reserve|set_len)$|as std::iter::Extend")
+
+
+def buffer_len_invariant(prog, N):
+    """max length of rabin ChunkIter.buf: the constant it is created with, provided no function ever grows it"""
+    cap = None
+    for bi, blk in enumerate(N.blocks):
+        t = blk["t"]
+        if t["k"] == "call" and "callee" in t and callee(t).endswith("std::vec::from_elem"):
+            e = flow.expr_of(N, t["args"][1])
+            if e[0] == "const" and isinstance(e[1], int):
+                cap = e[1]
+    if cap is None:
+        return None
+    for b in prog.by_crate["rustic_core"]:
+        if "chunker::rabin" not in b.path:
+            continue
+        for bb, t in b.calls():
+            if "callee" in t and GROW.search(callee(t)) and t["args"] and op_place(t["args"][0]):
+                pp = flow.place_path(b, op_place(t["args"][0]))
+                if pp and "buf" in pp[1]:
+                    return None
+        for blk in b.blocks:
+            for s in blk["s"]:
+                if s[0] == "=" and place_has_field(s[1], "buf", "rabin::ChunkIter") and not (b.path.endswith("ChunkIter::<R>::new")):
+                    return None
+    return cap
+
+
+# sinks whose safety rests on an internal (not option-derived) invariant the interval analysis cannot see; each maps
+# the sink to the option-derived fact that is still required, with the stated lemma
+LEMMAS = {
+    ("<chunker::rabin::ChunkIter<R> as std::iter::Iterator>::next", "Overflow:Sub", 2):
+        ("vec.len() >= self.min_size at the window slice: vec holds the carried bytes plus `size` freshly read bytes and the early return for size < min_size - carried has been passed",
+         ("ChunkIter", "min_size"), 64),
+}
+
+
+def run_rule(ctx, rep, rule, select):
+    rep.rule(rule, "every panicking operation with an option-derived operand is proved safe by intervals / guards / validator facts")
+    results, vs, field_inv = analyse_all(ctx)
+    n_t = 0
+    for (b, a, desc) in results:
+        if not select(b):
+            continue
+        ordn = {}
+        for (bb, kind), s in sorted(a.sinks.items()):
+            if not s.tainted:
+                continue
+            n_t += 1
+            ordn[kind] = ordn.get(kind, 0) + 1
+            lem = LEMMAS.get((fn_key(b), kind, ordn[kind]))
+            if lem and not s.ok:
+                text, fld, need = lem
+                inv = field_inv.get(fld)
+                okl = inv is not None and inv[0] >= need
+                rep.check(rule, f"{fn_key(b)}/{kind}/{ordn[kind]}", okl, where=span_str(s.span),
+                          what=f"{fn_key(b)}: {kind} is safe given the lemma [{text}] and the validated invariant {fld[1]} >= {need} (have {inv})" if okl else
+                               f"{fn_key(b)}: {kind} needs {fld[1]} >= {need}, but validation only guarantees {inv}: tiny accepted parameters panic here")
+                continue
+            rep.check(rule, f"{fn_key(b)}/{kind}/{ordn[kind]}", s.ok, where=span_str(s.span),
+                      what=f"{fn_key(b)}: {kind} ({s.detail}) cannot trap for any accepted option value" if s.ok else
+                           f"{fn_key(b)}: {kind} with an operand derived from {desc} can panic: {s.detail}")
+        rep.count(f"{rule}: sinks in {fn_key(b)} (tainted/all)", f"{sum(1 for s in a.sinks.values() if s.tainted)}/{len(a.sinks)}")
+    if vs:
+        ivs, ge, _ = vs
+        rep.observe(f"validator summary check_rabin_params Ok => chunk_size in {ivs.get(1)}, chunk_min_size in {ivs.get(2)}, chunk_max_size in {ivs.get(3)}, relations {sorted(ge)}")
+    rep.observe(f"rabin ChunkIter field invariants from the constructor: {field_inv}")
+    rep.floor(rule, "option-tainted panicking operations examined", n_t, 3)
+
+
 def run_c18(ctx, rep):
-    pass
+    run_rule(ctx, rep, "C18.a", lambda b: True)
+
+
+def run_c06(ctx, rep):
+    run_rule(ctx, rep, "C06.a", lambda b: "chunker::" in b.path)
